@@ -602,6 +602,16 @@ def emit_stmts(st, atoms, ty, indent='  '):
     raise Untranslatable('statement kind ' + head[0])
 
 
+BASELINE_DIR = os.path.join(os.path.dirname(os.path.abspath(__file__)), 'gen_baseline')
+
+
+def load_guard_baseline():
+    p = os.path.join(BASELINE_DIR, 'guards.json')
+    if os.environ.get('VERIF_NO_BASELINE') or not os.path.exists(p):
+        return {}
+    return json.load(open(p))
+
+
 def gen_guards(h, report):
     scope = h.class_scope('small_vector_base')
     out = [PRELUDE % 'the `if (...)` conditions of the decision points of small_vector_base',
@@ -615,38 +625,88 @@ def gen_guards(h, report):
            '  alloc : Nat := 0\n  oAlloc : Nat := 0\n  argAlloc : Nat := 0',
            '  constEval : Bool := false\n  sameObject : Bool := false\n']
     names = []
+    base = load_guard_baseline()
+    current = {}          # key -> [(cond, lean | None, why)]
+    seen_keys = set()
     for fn in GUARD_FUNCTIONS:
         fs = list(h.find_functions(fn, scope))
         if not fs:
-            report['untranslatable'].append(dict(item='guards of ' + fn, why='definition not found'))
+            report['untranslatable'].append(dict(item='guards of ' + fn, why='definition not found',
+                                                 names=[g['name'] for k, gs in base.items() if k == fn or re.match(re.escape(fn) + r'_\d+$', k) for g in gs]))
             continue
         for k, f in enumerate(fs):
             body = resolve_pp(f['body'])
             nx, nxe = noexcept_of(f['quals'])
             key = fn if len(fs) == 1 else '%s_%d' % (fn, k)
+            seen_keys.add(key)
             report['functions'][key] = dict(line=f['line'], noexcept=nx, noexcept_expr=nxe,
                                             fingerprint=hashlib.sha256(norm(f['body']).encode()).hexdigest()[:16])
             try:
                 conds = extract_conditions(body)
             except Untranslatable as ex:
-                report['untranslatable'].append(dict(item='guards of ' + key, why=str(ex)))
+                report['untranslatable'].append(dict(item='guards of ' + key, why=str(ex), names=[g['name'] for g in base.get(key, [])]))
                 continue
-            gi = 0
-            for cond, is_constexpr in conds:
-                if is_constexpr:
-                    continue
-                if cond == 'std::is_constant_evaluated ()':
-                    continue  # modelled by the constEval branch of the hand-written body
-                lname = 'guard_%s_%d' % (camel(key), gi)
-                gi += 1
+            conds = [c for c, is_constexpr in conds if not is_constexpr and c != 'std::is_constant_evaluated ()']
+            cur = []
+            for cond in conds:
                 try:
-                    lean = translate_guard(cond)
-                    out.append('/-- hpp:%d  `%s` -/' % (f['line'], cond))
-                    out.append('def %s (e : GuardEnv) : Bool := %s\n' % (lname, lean))
-                    names.append(lname)
+                    cur.append((cond, translate_guard(cond), None))
                 except Untranslatable as ex:
-                    out.append('-- UNTRANSLATABLE %s  `%s` : %s\n' % (lname, cond, ex))
-                    report['untranslatable'].append(dict(item=lname, cond=cond, why=str(ex)))
+                    cur.append((cond, None, str(ex)))
+            current[key] = (f['line'], cur)
+    # name the guards.  Without a baseline (or when a function has as many decision points as in the baseline) names are
+    # positional.  When the number differs, the conditions are aligned with the baseline's by their text: a decision
+    # point that is gone keeps its baseline definition (marked STALE, reported, so that only the theorems that mention it
+    # lose their tie and everything else still builds), a new one is emitted under a fresh name and reported.
+    record = {}
+    for key in list(current) + [k for k in base if k not in current]:
+        line, cur = current.get(key, (0, []))
+        bl = base.get(key)
+        slots = []     # (lean name, cond, lean, status, why)
+        if key not in current:
+            for g in bl:
+                slots.append((g['name'], g['cond'], g['lean'], 'stale', 'the function (or this overload) is no longer found in the header'))
+        elif bl is None or len(bl) == len(cur):
+            for gi, (cond, lean, why) in enumerate(cur):
+                nm = 'guard_%s_%d' % (camel(key), gi)
+                if lean is None and bl is not None:
+                    slots.append((nm, cond, bl[gi]['lean'], 'stale', 'condition outside the translator subset (%s); baseline definition substituted' % why))
+                else:
+                    slots.append((nm, cond, lean, 'ok' if lean is not None else 'untranslatable', why))
+        else:
+            import difflib
+            sm = difflib.SequenceMatcher(a=[g['cond'] for g in bl], b=[c[0] for c in cur], autojunk=False)
+            matched_b = {}
+            for a0, b0, n in sm.get_matching_blocks():
+                for d in range(n):
+                    matched_b[b0 + d] = a0 + d
+            used_a = set(matched_b.values())
+            newi = 0
+            for bi, (cond, lean, why) in enumerate(cur):
+                if bi in matched_b:
+                    g = bl[matched_b[bi]]
+                    slots.append((g['name'], cond, lean if lean is not None else g['lean'], 'ok' if lean is not None else 'stale', why))
+                else:
+                    slots.append(('guard_%s_new%d' % (camel(key), newi), cond, lean, 'new' if lean is not None else 'untranslatable', why or 'decision point not present in the baseline model'))
+                    newi += 1
+            for ai, g in enumerate(bl):
+                if ai not in used_a:
+                    slots.append((g['name'], g['cond'], g['lean'], 'stale', 'this decision point is no longer in the function (the function now has %d conditions, the model was written for %d)' % (len(cur), len(bl))))
+        record[key] = []
+        for nm, cond, lean, status, why in slots:
+            if status == 'untranslatable':
+                out.append('-- UNTRANSLATABLE %s  `%s` : %s\n' % (nm, cond, why))
+                report['untranslatable'].append(dict(item=nm, name=nm, cond=cond, why=why))
+                continue
+            tag = '' if status == 'ok' else ('  [STALE: baseline definition, not the current header]' if status == 'stale' else '  [NEW: not used by the model]')
+            out.append('/-- hpp:%d  `%s`%s -/' % (line, cond, tag))
+            out.append('def %s (e : GuardEnv) : Bool := %s\n' % (nm, lean))
+            names.append(nm)
+            if status == 'ok':
+                record[key].append(dict(name=nm, cond=cond, lean=lean))
+            else:
+                report['untranslatable'].append(dict(item=nm, name=nm, cond=cond, why=why, status=status))
+    report['guard_record'] = record
     out.append('end SvModel.Gen\n')
     report['guards'] = names
     return '\n'.join(out)
@@ -974,7 +1034,10 @@ GENERATORS = [('Growth', gen_growth), ('Guards', gen_guards), ('Policy', gen_pol
 
 
 def main():
-    only = sys.argv[1:]
+    only = [a for a in sys.argv[1:] if not a.startswith('--')]
+    save_baseline = '--save-baseline' in sys.argv
+    if save_baseline:
+        os.environ['VERIF_NO_BASELINE'] = '1'
     h = Header()
     report = dict(header=HPP, header_sha256=hashlib.sha256(h.src.encode()).hexdigest(), functions={}, untranslatable=[], files={})
     for name, gen in GENERATORS:
@@ -992,6 +1055,14 @@ def main():
             changed = write_if_changed(path, text)
             report['files'][name] = dict(ok=False, changed=changed, why=str(ex))
             report['untranslatable'].append(dict(item='file ' + name, why=str(ex)))
+    if save_baseline:
+        if report['untranslatable']:
+            print('refusing to save a baseline from a header with untranslatable items')
+            return 1
+        os.makedirs(BASELINE_DIR, exist_ok=True)
+        with open(os.path.join(BASELINE_DIR, 'guards.json'), 'w') as f:
+            json.dump(report['guard_record'], f, indent=1, sort_keys=True)
+    report.pop('guard_record', None)
     with open(os.path.join(GEN, 'translate_report.json'), 'w') as f:
         json.dump(report, f, indent=1)
     bad = [k for k, v in report['files'].items() if not v['ok']]
